@@ -74,7 +74,7 @@ def r3(text, args, label):
 
 
 def r11(text, args, label):
-    """X.is_some_and(|c| E)  ->  (match X { Some(c) => E, None => false })  -- all occurrences."""
+    """X.is_some_and(|c| E)  ->  (match X { Some(c) => E, _ => false })  -- all occurrences."""
     count = 0
     while True:
         m = mask(text)
@@ -113,7 +113,7 @@ def r11(text, args, label):
         recv_s = recv.strip()
         if not recv_s.startswith('self'):
             raise LostAnchor('%s: R11 receiver not understood: %s' % (label, recv_s[:40]))
-        new = '(match %s { Some(%s) => %s, None => false })' % (_ws(recv_s), c_name, e)
+        new = '(match %s { Some(%s) => %s, _ => false })' % (_ws(recv_s), c_name, e)
         text = text[:j + lead] + new + text[c + 1:]
         count += 1
     if count == 0:
